@@ -3,7 +3,7 @@
    the write lock matters: without exclusion two registrations could overwrite each other. *)
 From Coq Require Import List ZArith Bool Arith Lia.
 Import ListNotations.
-From GU Require Import C12.Conc C12.Model.
+From GU Require Import C12.Conc C12.Facts C12.Gen C12.Model.
 
 Lemma nth_error_upd {A} (l : list A) i j x :
   nth_error (upd i x l) j = if (j =? i) then (match nth_error l i with Some _ => Some x | None => None end) else nth_error l j.
@@ -76,14 +76,21 @@ Proof.
     + intros ? ? [].
 Qed.
 
+Section Store.
+  (* the facts the proof needs: Register holds the WRITE lock around its read-then-write of the slice, and copies its
+     arguments; both are discharged for [gen_facts] by computation at the end of this file *)
+  Variable f : facts.
+  Hypothesis Hlock : f_reg_lock f = LLock.
+  Hypothesis Hcopy : f_reg_copies f = true.
+
 Lemma incl_app_l {A} (a b c : list A) : incl a b -> incl a (b ++ c).
 Proof. intros H x Hx. apply in_or_app. left. auto. Qed.
 
-Lemma SI_step s i s' : SI s -> s_step s i = Some s' -> SI s'.
+Lemma SI_step s i s' : SI s -> s_step f s i = Some s' -> SI s'.
 Proof.
   intros (HA & HW & HT & HC) E. unfold s_step in E.
   destruct (nth_error (s_threads s) i) as [th|] eqn:Ei; [|discriminate].
-  destruct (th_step s th) as [[s1 th']|] eqn:Est; [|discriminate]. inversion E; subst s'; clear E.
+  destruct (th_step f s th) as [[s1 th']|] eqn:Est; [|discriminate]. inversion E; subst s'; clear E.
   pose proof (HT i th Ei) as Hth.
   pose proof (wsec_upd (s_threads s) i th th' Ei) as HU.
   destruct s as [fns wr rd ths rdn cs]. destruct th as [ops pc must called outs]. simpl in *.
@@ -95,9 +102,9 @@ Proof.
     - rewrite Ei in Hj. inversion Hj; subst. exact H1.
     - apply Nat.eqb_neq in Eji. eauto. }
   unfold th_ok in Hth; simpl in Hth.
-  destruct pc as [|f|f|f seen|f| |todo| |n]; simpl in Est.
+  destruct pc as [|fs|fs|fs seen|fs| |todo| |n]; simpl in Est; rewrite ?Hlock, ?Hcopy in Est.
   - (* SIdle: the next call starts *)
-    destruct ops as [|[f| | |] r]; try discriminate; inversion Est; subst; clear Est; unfold SI; simpl;
+    destruct ops as [|[fs| | |] r]; try discriminate; inversion Est; subst; clear Est; unfold SI; simpl;
       (split; [exact HA|]); (split; [unfold insec in *; simpl in *; lia|]); (split; [|exact HC]);
       apply others; unfold th_ok; simpl; auto; try apply incl_refl;
       intros j th2 _ Hj; exact (HT j th2 Hj).
@@ -137,7 +144,7 @@ Proof.
     + apply incl_appr. intros x Hx. apply HA. now apply Hth.
     + intros j th2 _ Hj; exact (HT j th2 Hj).
   - (* SCanLoop *)
-    destruct todo as [|f todo]; inversion Est; subst; clear Est; unfold SI; simpl.
+    destruct todo as [|g todo]; inversion Est; subst; clear Est; unfold SI; simpl.
     + (* RUnlock, Cancel returns: everything it had to call has been called *)
       split; [exact HA|]. split; [unfold insec in *; simpl in *; lia|]. split.
       * apply others; unfold th_ok; simpl; auto. intros j th2 _ Hj; exact (HT j th2 Hj).
@@ -156,21 +163,41 @@ Proof.
     apply others; unfold th_ok; simpl; auto. intros j th2 _ Hj; exact (HT j th2 Hj).
 Qed.
 
-Lemma SI_run progs sched : SI (run s_step (s_init progs) sched).
-Proof. apply (inv_run s_step SI SI_step). apply SI_init. Qed.
+Lemma SI_run progs sched : SI (run (s_step f) (s_init progs) sched).
+Proof. apply (inv_run (s_step f) SI SI_step). apply SI_init. Qed.
+End Store.
 
-(* ---- the statement used by Props.v ---- *)
+(* ---- the statement used by Props.v: for the GENERATED facts ---- *)
+Lemma gen_register_locks_and_copies : f_reg_lock gen_facts = LLock /\ f_reg_copies gen_facts = true.
+Proof. split; reflexivity. Qed.
+
 Lemma cancel_store_complete_l : forall progs sched,
-  let s := run s_step (s_init progs) sched in
+  let s := run (s_step gen_facts) (s_init progs) sched in
   (* every function whose Register had returned when a Cancel was called has been invoked by that Cancel when it returns *)
   (forall must called, In (must, called) (s_cancels s) -> incl must called) /\
-  (* no registration that has returned is ever lost from the slice *)
+  (* no registration that has returned is ever lost from the slice (whatever the callers do to their slices afterwards) *)
   incl (s_regdone s) (s_fns s) /\
   (* a Cancel in progress still has everything it owes ahead of it *)
   (forall j th todo, nth_error (s_threads s) j = Some th -> th_pc th = SCanLoop todo ->
      incl (th_must th) (th_called th ++ todo)).
 Proof.
-  intros progs sched s. destruct (SI_run progs sched) as (HA & _ & HT & HC). fold s in HA, HT, HC.
+  intros progs sched s.
+  destruct (SI_run gen_facts (proj1 gen_register_locks_and_copies) (proj2 gen_register_locks_and_copies) progs sched) as (HA & _ & HT & HC).
+  fold s in HA, HT, HC.
   split; [exact HC|]. split; [exact HA|].
   intros j th todo Hj Hpc. specialize (HT j th Hj). unfold th_ok in HT. rewrite Hpc in HT. exact HT.
 Qed.
+
+(* why the facts matter: with a READ lock in Register two registrations can interleave their read-then-write and one is
+   lost; without the copy, the caller's later writes reach the store *)
+Lemma register_under_rlock_loses_a_function :
+  let f := mkFacts 1 1 [] [] true true true true true 1 [] [] [] true CapLen LRLock true LRLock LRLock in
+  let s := run (s_step f) (s_init [[SReg [1]]; [SReg [2]]]) [0; 1; 0; 1; 0; 1; 0; 1; 0; 1] in
+  s_regdone s = [2; 1] /\ s_fns s = [2].
+Proof. split; reflexivity. Qed.
+
+Lemma register_without_copy_loses_functions :
+  let f := mkFacts 1 1 [] [] true true true true true 1 [] [] [] true CapLen LLock false LRLock LRLock in
+  let s := run (s_step f) (s_init [[SReg [1; 2]; SScribble]]) [0; 0; 0; 0; 0; 0] in
+  s_regdone s = [1; 2] /\ s_fns s = [].
+Proof. split; reflexivity. Qed.
